@@ -712,6 +712,14 @@ fn circular_arc_properties(a: Pos, b: Pos, c: Pos) -> Option<CircularArcProperti
 
     // * See: https://en.wikipedia.org/wiki/Circumscribed_circle#Cartesian_coordinates_2
     let d = 2.0 * (a.x * (b - c).y + b.x * (c - a).y + c.x * (a - b).y);
+
+    // `d` is the value of the check above times two, evaluated differently.
+    // Far away from the origin the two round differently so `d` can be zero
+    // nonetheless, in which case the centre would not be finite.
+    if d == 0.0 {
+        return None;
+    }
+
     let a_sq = a.length_squared();
     let b_sq = b.length_squared();
     let c_sq = c.length_squared();
